@@ -185,28 +185,56 @@ def check_links(P, ctx):
                         '(in-order iteration and rebalancing navigate through parent links)' % (ir.fmt(bad[1]), ir.fmt(bad[2]) if bad[2] else 'root'), ['store: %s' % g.describe(bad[0])])
         else:
             ctx.proved(rule, fname, site(fn), 'each of the %d child-link stores is paired with the matching parent-link update (skipped only for a NULL child)' % len(stores))
-    # tag-bit accessors: colour lives in bit 0 of the parent word; setting one preserves the other
+    # tag-bit accessors: the parent pointer and the colour share a word; setting one keeps the other — evaluated (cint) on integer memory
+    # through the accessors themselves: after Tree_Set_Parent(n, p) the parent reads p and the colour is what it was; after
+    # Tree_Set_Color(n, c) the colour reads c and the parent is what it was
+    from . import cint
+    NODE = 100000
+
+    def acc(fname, args, memory):
+        def rd(a, it):
+            if not NODE <= a < NODE + 64:
+                raise cint.NoEval('read outside the node')
+            return memory.get(a, 0)
+
+        def wr(a, v, w, it):
+            if not NODE <= a < NODE + 64:
+                raise cint.NoEval('write outside the node')
+            memory[a] = v
+        return cint.CInt(P, P.fn(fname), atoms={('global', 'NULL'): 0}, recurse=True, mem=rd, memw=wr, strict=True, max_depth=6).run(args)
+    bad_p, bad_c, unsup = None, None, None
+    colour_fn = 'Tree_Get_Color' if P.fn('Tree_Get_Color', required=False) else 'Tree_Is_Red'
+    for p0 in (0, 200000):
+        for c0 in (0, 1):
+            for p1 in (0, 300000):
+                for c1 in (0, 1):
+                    m0 = {}
+                    r = acc('Tree_Set_Parent', [('ep', 'self', 0), NODE, p0], m0)
+                    r2 = acc('Tree_Set_Color', [('ep', 'self', 0), NODE, c0], m0)
+                    if r[0] != 'ret' or r2[0] != 'ret':
+                        unsup = unsup or '%s' % ((r if r[0] != 'ret' else r2)[1],)
+                        continue
+                    m1 = dict(m0)
+                    ra = acc('Tree_Set_Parent', [('ep', 'self', 0), NODE, p1], m1)
+                    gp, gc = acc('Tree_Get_Parent', [('ep', 'self', 0), NODE], m1), acc(colour_fn, [('ep', 'self', 0), NODE], m1)
+                    if ra[0] != 'ret' or gp[0] != 'ret' or gc[0] != 'ret':
+                        unsup = unsup or 'accessors not evaluated'
+                    elif gp[1] != p1 or bool(gc[1]) != bool(c0):
+                        bad_p = bad_p or 'a %s node with parent %s, parent set to %s: the parent then reads %s, the colour %s' % ('red' if c0 else 'black', p0, p1, gp[1], 'red' if gc[1] else 'black')
+                    m2 = dict(m0)
+                    rb = acc('Tree_Set_Color', [('ep', 'self', 0), NODE, c1], m2)
+                    gp, gc = acc('Tree_Get_Parent', [('ep', 'self', 0), NODE], m2), acc(colour_fn, [('ep', 'self', 0), NODE], m2)
+                    if rb[0] != 'ret' or gp[0] != 'ret' or gc[0] != 'ret':
+                        unsup = unsup or 'accessors not evaluated'
+                    elif gp[1] != p0 or bool(gc[1]) != bool(c1):
+                        bad_c = bad_c or 'a %s node with parent %s, colour set to %s: the parent then reads %s, the colour %s' % ('red' if c0 else 'black', p0, 'red' if c1 else 'black', gp[1], 'red' if gc[1] else 'black')
     fn = P.fn('Tree_Set_Parent')
-    g = P.cfg(fn)
-    N = util.Norm(P, fn, inline=False)
-    st = [(n, N.canon(n['expr'])) for n in g.live() if n['kind'] == 'stmt' and n['expr'] is not None and N.canon(n['expr'])[0] == 'assign']
-    red = [n for n in g.live() if n['kind'] == 'cond' and any(ir.callee_name(c) in ('Tree_Is_Red', 'Tree_Get_Color') for c in ir.calls(n['expr']))]
-    ok = len(st) == 2 and len(red) == 1
-    if ok:
-        t = [e for n, e in st if g.must_pass(n['id'], through_edges=[(red[0]['id'], True)])]
-        f = [e for n, e in st if g.must_pass(n['id'], through_edges=[(red[0]['id'], False)])]
-        ok = len(t) == 1 and len(f) == 1 and t[0][3] == ir.canon(('bin', '|', ('param', 'ptr', 2), ('int', 1))) and f[0][3] == ('param', 2) and t[0][2] == f[0][2]
-    ctx.check(ok, rule, 'Tree_Set_Parent', site(fn), 'setting the parent keeps the colour bit (bit 0 of the same word)')
-    ab = util.accessor_body(P, 'Tree_Get_Parent')
-    fn = P.fn('Tree_Get_Parent')
-    g = P.cfg(fn)
-    N = util.Norm(P, fn, expand_locals=True, inline=False)
-    rets = [n for n in g.live() if n['kind'] == 'ret']
-    ok = len(rets) == 1
-    if ok:
-        e = N.canon(rets[0]['expr'])
-        ok = e[0] == 'bin' and e[1] == '&' and any(x == ('un', '~', ('int', 1)) for x in (e[2], e[3]))
-    ctx.check(ok, rule, 'Tree_Get_Parent', site(fn), 'reading the parent masks the colour bit out')
+    if unsup and not (bad_p or bad_c):
+        ctx.undecided(rule, 'Tree_Set_Parent', site(fn), 'the tag-bit accessors leave the evaluated fragment: ' + unsup)
+        ctx.undecided(rule, 'Tree_Get_Parent', site(P.fn('Tree_Get_Parent')), 'the tag-bit accessors leave the evaluated fragment: ' + unsup)
+    else:
+        ctx.check(bad_p is None, rule, 'Tree_Set_Parent', site(fn), 'setting the parent keeps the colour bit (bit 0 of the same word)', [bad_p] if bad_p else None)
+        ctx.check(bad_c is None, rule, 'Tree_Get_Parent', site(P.fn('Tree_Get_Parent')), 'reading the parent masks the colour bit out; setting the colour keeps the parent', [bad_c] if bad_c else None)
     ctx.floor(rule, 6)
 
 
